@@ -170,8 +170,11 @@ class Property:
 # ------------------------------------------------------------------------------------------------
 def load_known_findings(pid: str) -> tuple[dict[str, dict], list[dict]]:
     open_, fixed = {}, []
-    path = os.path.join(ROOT, "known_findings.jsonl")
-    if os.path.exists(path):
+    import glob
+    paths = [os.path.join(ROOT, "known_findings.jsonl")] + sorted(glob.glob(os.path.join(ROOT, "known_findings.d", "*.jsonl")))
+    for path in paths:
+        if not os.path.exists(path):
+            continue
         for line in open(path):
             line = line.strip()
             if not line or line.startswith("#"):
